@@ -491,8 +491,10 @@ class SymBytes(SymSeq):
 
     def decode(self, enc="utf-8", errors="strict"):
         e = enc.lower().replace("-", "").replace("_", "")
-        if e in ("utf8", "ascii") and all(isinstance(x, int) and x < 128 or (isinstance(x, SymInt) and bool(x < 128)) for x in self._items):
-            return SymStr.from_ascii(self._items)
+        if errors == "strict" and e == "utf8":
+            return utf8_decode(self._items)
+        if errors == "strict" and e == "utf16le":
+            return utf16le_decode(self._items)
         return self.realize().decode(enc, errors)
 
     def replace(self, a, b):
@@ -717,11 +719,12 @@ class SymStr:
 
     def encode(self, encoding="utf-8", errors="strict"):
         items = []
+        codec = {"utf8": "utf-8", "utf16le": "utf-16-le"}.get(encoding.lower().replace("-", "").replace("_", ""))
         for p in self.parts:
             if isinstance(p, str):
                 items.extend(p.encode(encoding, errors))
-            elif p[0] == "chr" and encoding.lower().replace("-", "") in ("utf8", "ascii", "latin1"):
-                items.append(p[1])
+            elif p[0] == "chr" and codec:
+                items.extend(_enc_cp(p[1], codec))
             else:
                 from .engine import Unsupported
 
@@ -887,3 +890,109 @@ def sym_truediv(a, b):
         qa = z3.fpDiv(rne, z3.fpSignedToFP(rne, A.t, WIDE), z3.fpSignedToFP(rne, B.t, WIDE))
         q = z3.fpFPToFP(rne, qa, F64)
     return SymFloat(q, lo, hi)
+
+
+# ---------------------------------------------------------------- text codecs over symbolic bytes (class forks, no value enumeration)
+
+
+def _t(x):
+    return x if isinstance(x, bool) else bool(x)
+
+
+def _in(x, lo, hi):
+    if isinstance(x, int):
+        return lo <= x <= hi
+    return _t(x >= lo) and _t(x <= hi)
+
+
+def _uerr(codec, reason):
+    return UnicodeDecodeError(codec, b"\x00", 0, 1, reason)
+
+
+def utf8_decode(items):
+    """strict UTF-8 decoding; a symbolic byte forks on its *class* (lead/continuation ranges), never on its value"""
+    items = list(items)
+    parts, i, n = [], 0, len(items)
+    while i < n:
+        b0 = items[i]
+        if _t(b0 < 0x80):
+            parts.append(("chr", b0))
+            i += 1
+            continue
+        if _t(b0 < 0xC2) or _t(b0 > 0xF4):
+            raise _uerr("utf-8", "invalid start byte")
+        if _t(b0 < 0xE0):
+            need, ranges = 1, [(0x80, 0xBF)]
+            cp = b0 & 0x1F
+        elif _t(b0 < 0xF0):
+            need = 2
+            first = (0xA0, 0xBF) if _t(b0 == 0xE0) else ((0x80, 0x9F) if _t(b0 == 0xED) else (0x80, 0xBF))
+            ranges = [first, (0x80, 0xBF)]
+            cp = b0 & 0x0F
+        else:
+            need = 3
+            first = (0x90, 0xBF) if _t(b0 == 0xF0) else ((0x80, 0x8F) if _t(b0 == 0xF4) else (0x80, 0xBF))
+            ranges = [first, (0x80, 0xBF), (0x80, 0xBF)]
+            cp = b0 & 0x07
+        for k in range(need):
+            if i + 1 + k >= n:
+                raise _uerr("utf-8", "unexpected end of data")
+            bk = items[i + 1 + k]
+            if not _in(bk, *ranges[k]):
+                raise _uerr("utf-8", "invalid continuation byte")
+            cp = (cp << 6) | (bk & 0x3F)
+        parts.append(("chr", cp))
+        i += need + 1
+    return SymStr(parts).norm()
+
+
+def utf16le_decode(items):
+    items = list(items)
+    n = len(items)
+    parts, i = [], 0
+    while i + 1 < n:
+        lo, hi = items[i], items[i + 1]
+        if _in(hi, 0xD8, 0xDB):
+            if i + 3 >= n:
+                raise _uerr("utf-16-le", "unexpected end of data")
+            lo2, hi2 = items[i + 2], items[i + 3]
+            if not _in(hi2, 0xDC, 0xDF):
+                raise _uerr("utf-16-le", "illegal UTF-16 surrogate")
+            cp = 0x10000 + ((((hi - 0xD8) << 8) | lo) << 10) + (((hi2 - 0xDC) << 8) | lo2)
+            parts.append(("chr", cp))
+            i += 4
+            continue
+        if _in(hi, 0xDC, 0xDF):
+            raise _uerr("utf-16-le", "illegal encoding")
+        parts.append(("chr", (hi << 8) | lo))
+        i += 2
+    if i < n:
+        raise _uerr("utf-16-le", "truncated data")
+    return SymStr(parts).norm()
+
+
+def _enc_cp(cp, codec):
+    """bytes of one code point"""
+    if isinstance(cp, int):
+        return list(chr(cp).encode(codec))
+    if codec == "utf-16-le":
+        if _t(cp < 0x10000):
+            if _in(cp, 0xD800, 0xDFFF):
+                raise UnicodeEncodeError(codec, "\ud800", 0, 1, "surrogates not allowed")
+            return [cp & 0xFF, cp >> 8]
+        v = cp - 0x10000
+        h, l = 0xD800 + (v >> 10), 0xDC00 + (v & 0x3FF)
+        return [h & 0xFF, h >> 8, l & 0xFF, l >> 8]
+    if codec == "utf-8":
+        if _t(cp < 0x80):
+            return [cp]
+        if _t(cp < 0x800):
+            return [0xC0 | (cp >> 6), 0x80 | (cp & 0x3F)]
+        if _t(cp < 0x10000):
+            if _in(cp, 0xD800, 0xDFFF):
+                raise UnicodeEncodeError(codec, "\ud800", 0, 1, "surrogates not allowed")
+            return [0xE0 | (cp >> 12), 0x80 | ((cp >> 6) & 0x3F), 0x80 | (cp & 0x3F)]
+        return [0xF0 | (cp >> 18), 0x80 | ((cp >> 12) & 0x3F), 0x80 | ((cp >> 6) & 0x3F), 0x80 | (cp & 0x3F)]
+    from .engine import Unsupported
+
+    raise Unsupported(f"encode({codec}) of a symbolic character")
